@@ -47,6 +47,7 @@ SELFTEST = [
     {"mutation": "poll_read_stream: Close arm returns Ok(None) when id != stream_id", "caught_by": "read/EOF only when the read half is closed or a Close/Reset for this id was just processed"},
     {"mutation": "poll_read_stream: fast path only when buf.len() > 1", "caught_by": "read/the socket is read only when the reader's buffer is empty"},
     {"mutation": "Substream::drop calls drop_stream(self.id.next())", "caught_by": "adapter/dropping a Substream drops its own id in the muxer"},
+    {"mutation": "(neutral, must stay silent) /verif/neutral/mux: 03/06.diff (renames; yamux `?` -> match), `id == stream_id.into_local()` operand swap, Substream::poll_read without the `this` alias and with `usize::min`", "caught_by": "silent"},
 ]
 
 STATES = ["Open", "SendClosed", "RecvClosed", "Closed", "Reset"]
@@ -57,12 +58,7 @@ def check(ctx):
     old = mir.RENDER_MAX[0]
     mir.RENDER_MAX[0] = 40
     try:
-        _read_side(ctx)
-        _state_tables(ctx)
-        _write_side(ctx)
-        _ids(ctx)
-        _adapter(ctx)
-        _yamux(ctx)
+        lib_mux.sections(ctx, _read_side, _state_tables, _write_side, _ids, _adapter, _yamux)
     finally:
         mir.RENDER_MAX[0] = old
 
@@ -86,9 +82,9 @@ def _read_side(ctx):
         if val == "smallvec::SmallVec::remove(%s, 0)" % OWNBUF:
             ctx.ob("read", "buffered payload is taken from the front of the reader's own buffer", True, site.loc(), "substreams[id].recv_buf().remove(0)")
         elif val == "%s@Data.data" % FR:
-            ctx.guarded("read", "frame payload returned only for the reader's own id", site,
-                        lambda c, rr, l: l == "true" and rr == "libp2p_mplex::<codec::LocalStreamId as std::cmp::PartialEq>::eq(libp2p_mplex::codec::RemoteStreamId::into_local(%s@Data.stream_id), id)" % FR,
-                        "frame.stream_id.into_local() == id")
+            own_eq, _ = lib_mux.eq_edges(rs, lambda t: t == "libp2p_mplex::codec::RemoteStreamId::into_local(%s@Data.stream_id)" % FR, lambda t: t == "id")
+            ok = bool(own_eq) and rs.must_pass_edges(b, own_eq)
+            ctx.ob("read", "frame payload returned only for the reader's own id", ok, site.loc(), ("guard present on all paths: " if ok else "a path reaches this site without the guard: ") + "frame.stream_id.into_local() == id")
         else:
             ctx.ob("read", "payload origin", False, site.loc(), "Ok(Some(..)) returns a value that is neither the reader's buffered frame nor the matching Data frame: %s" % val[-120:])
     front = [s for s in rs.call_sites(r"SmallVec::(remove|pop|swap_remove|drain)$")]
@@ -105,24 +101,27 @@ def _read_side(ctx):
         e = rs.site_expr(s)
         ctx.ob("read", "poll_read_stream: foreign Data frame buffered under its own id", render(e[2][1]) == "libp2p_mplex::codec::RemoteStreamId::into_local(%s@Data.stream_id)" % FR and render(e[2][2]) == "%s@Data.data" % FR,
                s.loc(), "%s / %s" % (render(e[2][1])[-44:], render(e[2][2])[-22:]))
-        ctx.guarded("read", "a frame for the reader itself is never put behind later frames", s,
-                    lambda c, rr, l: l == "false" and rr.endswith("into_local(%s@Data.stream_id), id)" % FR) and "LocalStreamId as std::cmp::PartialEq>::eq(" in rr, "stream_id.into_local() != id")
+        _, own_ne = lib_mux.eq_edges(rs, lambda t: t == "libp2p_mplex::codec::RemoteStreamId::into_local(%s@Data.stream_id)" % FR, lambda t: t == "id")
+        ok = bool(own_ne) and rs.must_pass_edges(s.bb, own_ne)
+        ctx.ob("read", "a frame for the reader itself is never put behind later frames", ok, s.loc(), ("guard present on all paths: " if ok else "a path reaches this site without the guard: ") + "stream_id.into_local() != id")
     # buffered frames before new frames
     prf = rs.call_sites(r"^libp2p_mplex::io::Multiplexed::poll_read_frame$")
     ctx.floor("read", "poll_read_frame call", prf, 1, exact=True)
-    empty = rs.guard_edges(lambda c, r, l: (l == "true" and r == "smallvec::SmallVec::is_empty(%s)" % OWNBUF) or (l == "None" and r == "discr(std::collections::HashMap::get_mut(self.substreams, id))"))
+    empty = rs.guard_edges(lambda c, r, l: (l == "true" and r == "smallvec::SmallVec::is_empty(%s)" % OWNBUF) or (l == "false" and r == "Not(smallvec::SmallVec::is_empty(%s))" % OWNBUF)) | \
+        lib_mux.none_edges(rs, "std::collections::HashMap::get_mut(self.substreams, id)") | \
+        lib_mux.edges_with(lib_mux.rel_edges(rs, lambda e: render(e) == "smallvec::SmallVec::len(%s)" % OWNBUF, lambda e: lib_mux.cval(e) == 0), {"eq", "le"})
     for s in prf:
         ctx.ob("read", "the socket is read only when the reader's buffer is empty", bool(empty) and rs.must_pass_edges(s.bb, empty), s.loc(), "every path to poll_read_frame passes buf.is_empty() (or the substream is unknown)")
         ctx.ob("read", "the reader registers interest under its own id", render(rs.site_expr(s)[2][2]) == "std::option::Option::Some{0: id}", s.loc(), render(rs.site_expr(s)[2][2]))
         # can_read re-tested in every iteration: from the frame dispatch no path returns to poll_read_frame without the can_read true edge
-        cr = rs.guard_edges(lambda c, r, l: l == "true" and r == "libp2p_mplex::io::Multiplexed::can_read(self, id)")
+        cr = rs.guard_edges(lambda c, r, l: (l == "true" and r == "libp2p_mplex::io::Multiplexed::can_read(self, id)") or (l == "false" and r == "Not(libp2p_mplex::io::Multiplexed::can_read(self, id))"))
         back = rs.reachable(rs.succ[s.bb], blocked_edges=cr)
         ctx.ob("read", "can_read(&id) is re-tested before every frame read", bool(cr) and rs.must_pass_edges(s.bb, cr) and s.bb not in back, s.loc(), "no path reaches poll_read_frame (again) without the can_read true edge")
     # EOF
     none = sorted(b for b, r in z.items() if r == "std::task::Poll::Ready{0: std::result::Result::Ok{0: std::option::Option::None{}}}")
     ctx.floor("read", "Ok(None) results", none, 3)
-    eofe = rs.guard_edges(lambda c, r, l: (l == "false" and r == "libp2p_mplex::io::Multiplexed::can_read(self, id)") or
-                          (l == "true" and re.match(r"^libp2p_mplex::<codec::LocalStreamId as std::cmp::PartialEq>::eq\(id, libp2p_mplex::codec::RemoteStreamId::into_local\(.*@(Close|Reset)\.stream_id\)\)$", r) is not None))
+    eofe = rs.guard_edges(lambda c, r, l: (l == "false" and r == "libp2p_mplex::io::Multiplexed::can_read(self, id)") or (l == "true" and r == "Not(libp2p_mplex::io::Multiplexed::can_read(self, id))")) | \
+        lib_mux.eq_edges(rs, lambda t: re.match(r"^libp2p_mplex::codec::RemoteStreamId::into_local\(.*@(Close|Reset)\.stream_id\)$", t) is not None, lambda t: t == "id")[0]
     for i, b in enumerate(none):
         site = mir.Site(rs, b, [d[2] for d in rs.defs[0] if d[1] == b][0])
         ctx.ob("read", "EOF only when the read half is closed or a Close/Reset for this id was just processed", bool(eofe) and rs.must_pass_edges(b, eofe), site.loc(),
@@ -227,7 +226,7 @@ def _state_tables(ctx):
         ok = len(here) == 1 and here[0][1] == "id" and _ins_desc(here[0][2])[0] == "Reset"
         ctx.ob("state", "on_reset table: %s -> Reset" % v, ok and orr.must_pass_nodes([arms[v]], orr.return_blocks(), [here[0][0].bb]) if here else False, _w(orr), str([(_ins_desc(val)) for _, _, val in here]))
     for s, k, val in ins:
-        bl = [x for x in mir.walk(val) if x[0] == "local" and x[2] == "buf"]
+        bl = [x for x in mir.walk(val) if x[0] == "local"]
         srcs = sorted(render(orr.rvalue_expr(d[3])) for x in bl for d in orr.defs.get(x[1], []) if d[0] == "stmt")
         ctx.ob("state", "on_reset keeps the receive buffer of the reset substream", srcs == sorted(REMOVED + "@%s.buf" % v for v in ("Open", "SendClosed", "RecvClosed")), s.loc(), str([x[-22:] for x in srcs]))
     # ---- poll_close_stream
@@ -254,7 +253,7 @@ def _state_tables(ctx):
         lib.expect_count(ctx, "state", "poll_close_stream: %s state is put back exactly once" % v, pc, [arms[v]], okres, lib.bbs([s for s, _, _ in ins]), (1, 1), "substreams.insert before Pending / Ready(Ok)")
     for v in ("Open", "RecvClosed"):
         sends = [s for s in pc.call_sites(r"^libp2p_mplex::io::Multiplexed::poll_send_frame$") if s.bb in pc.reachable([arms[v]])]
-        ctx.ob("state", "poll_close_stream: %s sends a Close frame for this substream" % v, len(sends) == 1 and _closure_frame(prog, pc, sends[0]) == "libp2p_mplex::codec::Frame::Close{stream_id: ^id}", _w(pc),
+        ctx.ob("state", "poll_close_stream: %s sends a Close frame for this substream" % v, len(sends) == 1 and _closure_frame(prog, pc, sends[0]) == "libp2p_mplex::codec::Frame::Close{stream_id: id}", _w(pc),
                str([_closure_frame(prog, pc, s) for s in sends]))
     for v in ("SendClosed", "Closed", "Reset"):
         sends = [s for s in pc.call_sites(r"^libp2p_mplex::io::Multiplexed::poll_send_frame$") if s.bb in pc.reachable([arms[v]])]
@@ -271,11 +270,30 @@ def _state_tables(ctx):
 
 
 def _closure_frame(prog, body, site):
-    cl = lib.closure_of(prog, body, body.site_expr(site))
-    if cl is None:
+    """The frame a `|| Frame::..` closure passed at `site` builds, with every captured variable replaced by the expression the
+    caller captured (so neither the closure's nor the caller's variable names matter)."""
+    cx = [x for x in mir.walk(body.site_expr(site)) if x[0] == "closure"]
+    if not cx:
         return None
-    vals = [render(cl.rvalue_expr(d[3])) for d in cl.defs.get(0, []) if d[0] == "stmt"]
-    return vals[0] if len(vals) == 1 else str(vals)
+    cl, ups = lib_mux.upvar_map(prog, body, cx[0])
+    vals = [cl.rvalue_expr(d[3]) for d in cl.defs.get(0, []) if d[0] == "stmt"]
+    if len(vals) != 1:
+        return str([render(v) for v in vals])
+
+    def sub(e):
+        t = e[0]
+        if t == "upvar":
+            return ups.get(e[1].lstrip("*"), e)
+        if t == "call":
+            return (t, e[1], tuple(sub(a) for a in e[2]), e[3])
+        if t == "agg":
+            return (t, e[1], e[2], e[3], tuple((f, sub(x)) for f, x in e[4]))
+        if t in ("field", "downcast", "cindex"):
+            return (t, sub(e[1])) + tuple(e[2:])
+        if t == "cast":
+            return (t, sub(e[1]), e[2])
+        return e
+    return render(sub(vals[0]))
 
 
 def _table(ctx, body, arms, want, name):
@@ -296,39 +314,33 @@ def _write_side(ctx):
     pw = lib_mux.io_body(ctx, "poll_write_stream")
     sends = pw.call_sites(r"^libp2p_mplex::io::Multiplexed::poll_send_frame$")
     ctx.floor("write", "poll_send_frame in poll_write_stream", sends, 1, exact=True)
-    FL = "std::cmp::min(core::slice::len(buf), self.config.split_send_size)"
+    FL = None
     for s in sends:
         gs = pw.guards_on_all_paths(s.bb)
         labs = [set(ls) for t, ls, _, c in gs if t == "discr(std::collections::HashMap::get(self.substreams, id)@Some.0)"]
         ctx.ob("write", "frames are sent only while the write half is open", labs == [{"Open", "RecvClosed"}], s.loc(), "states admitted: %s" % [sorted(x) for x in labs])
-        ctx.guarded("write", "frames are sent only for a known substream", s, lambda c, r, l: l == "Some" and r == "discr(std::collections::HashMap::get(self.substreams, id))", "substreams.get(&id) is Some")
-        e = pw.site_expr(s)
-        cl = lib.closure_of(prog, pw, e)
-        cexpr = [x for x in mir.walk(e) if x[0] == "closure"]
-        names = {}
-        for blk in cl.blocks:
-            for st in blk["stmts"]:
-                if st["k"] == "assign":
-                    for p in ([st["r"].get("p")] if st["r"].get("p") else []) + ([st["r"]["o"].get("p")] if st["r"]["k"] == "use" and "p" in st["r"].get("o", {}) else []):
-                        for pr in (p or {}).get("pr", ()):
-                            if pr["k"] == "field" and pr["n"].startswith("upvar:"):
-                                names[pr["i"]] = pr["n"].split(":", 1)[1].lstrip("*")
-        ups = {names.get(i, "?"): render(x) for i, x in enumerate(cexpr[0][2])} if cexpr else {}
-        ctx.ob("write", "the frame closure captures the caller's buffer, the framed length and the stream id", ups == {"buf": "buf", "frame_len": FL, "id": "id"}, s.loc(), str(ups))
-        fr = _closure_frame(prog, pw, s)
-        ctx.ob("write", "the frame is Data{stream_id: id, data: copy of buf[..frame_len]}",
-               fr == "libp2p_mplex::codec::Frame::Data{stream_id: ^id, data: asynchronous_codec::Bytes::copy_from_slice(core::slice::index::index(^*buf, std::ops::RangeTo::RangeTo{end: ^frame_len}))}", "%s:%d" % (cl.file, cl.line), str(fr))
+        se = lib_mux.some_edges(pw, "std::collections::HashMap::get(self.substreams, id)")
+        ctx.ob("write", "frames are sent only for a known substream", bool(se) and pw.must_pass_edges(s.bb, se), s.loc(), "substreams.get(&id) is Some")
+        fr = _closure_frame(prog, pw, s) or ""
+        m = re.match(r"^libp2p_mplex::codec::Frame::Data\{stream_id: id, data: asynchronous_codec::Bytes::copy_from_slice\(core::slice::index::index\(buf, std::ops::RangeTo::RangeTo\{end: (.+)\}\)\)\}$", fr)
+        ctx.ob("write", "the frame is Data{stream_id: id, data: copy of buf[..frame_len]}", m is not None, s.loc(), fr[-200:])
+        if m:
+            FL = m.group(1)
+            cx_ = [x for x in mir.walk(pw.site_expr(s)) if x[0] == "closure"][0]
+            fle = [x for x in cx_[2] if render(x) == FL]
+            ctx.ob("write", "frame_len = min(buf.len(), split_send_size)", bool(fle) and lib_mux.is_min_of(fle[0], lambda e: render(e) == "core::slice::len(buf)", lambda e: render(e) == "self.config.split_send_size"), s.loc(), FL)
     z = lib_mux.zero_assigns(pw)
     oks = {b: r for b, r in z.items() if r.startswith("std::task::Poll::Ready{0: std::result::Result::Ok{")}
     ctx.floor("write", "Ok(n) result", sorted(oks), 1, exact=True)
     for b, r in oks.items():
         ctx.ob("write", "returned count is the framed length", r == "std::task::Poll::Ready{0: std::result::Result::Ok{0: %s}}" % FL, _w(pw), r[-90:])
-        ok = bool(sends) and pw.must_pass_edges(b, lib.switch_edges_on_site(pw, sends[0], {"Continue"}))
+        ok = bool(sends) and pw.must_pass_edges(b, lib_mux.ok_edges(pw, sends[0]))
         ctx.ob("write", "Ok(n) only after the frame was accepted by the sink", ok, _w(pw), "dominated by the `?`-Continue edge of poll_send_frame")
     refuse = {"Reset": "BrokenPipe", "SendClosed": "WriteZero", "Closed": "WriteZero"}
     tab, unk = lib_mux.variant_table(pw, r"^discr\(std::collections::HashMap::get\(self\.substreams, id\)@Some\.0\)$", ["Reset", "SendClosed", "Closed"],
-                                     lambda r: (re.search(r"ErrorKind::(\w+)\{\}", r) or [None, r[:40]])[1] if "Err{" in r else ("(continues)" if "from_residual" not in r else "residual"),
+                                     lambda r: (re.search(r"ErrorKind::(\w+)\{\}", r) or [None, None])[1] if lib_mux.is_err_result(r) else "(continues)",
                                      extra={r"^discr\(std::collections::HashMap::get\(self\.substreams, id\)\)$": "Some", r"^discr\(<std::result::Result as std::ops::Try>::branch\(libp2p_mplex::io::Multiplexed::guard_open\(self\)\)\)$": "Continue"})
+    tab = {k: [x for x in v if x is not None] for k, v in tab.items()}      # (errors of the connection-level guard carry no ErrorKind literal)
     ctx.ob("write", "writes on a closed / reset write half fail (no frame)", tab == {k: [v] for k, v in refuse.items()}, _w(pw), str(tab))
     # poll_send_frame sends what the closure built
     ps = lib_mux.io_body(ctx, "poll_send_frame")
@@ -362,7 +374,7 @@ def _write_side(ctx):
             ctx.ob("write", "split_send_size capped at MAX_FRAME_SIZE (%s)" % b.short.split("::")[-1], isinstance(val, int) and 0 < val <= mx, s.loc(), "default split_send_size = %s" % (val if val is not None else render(v) if v else "?"))
         else:
             r = render(e)
-            ctx.ob("write", "split_send_size capped at MAX_FRAME_SIZE (%s)" % b.short.split("::")[-1], r in ("std::cmp::min(size, const:libp2p_mplex::codec::MAX_FRAME_SIZE)", "std::cmp::min(const:libp2p_mplex::codec::MAX_FRAME_SIZE, size)"), s.loc(), r)
+            ctx.ob("write", "split_send_size capped at MAX_FRAME_SIZE (%s)" % b.short.split("::")[-1], lib_mux.is_min_of(e, lambda x: x[0] == "arg", lambda x: lib_mux.cval(x) == mx), s.loc(), r)
 
 
 def _const_eval(e):
@@ -443,94 +455,134 @@ def _ids(ctx):
 
 
 # ====================================================================================================== Substream adapter
+def _self_alias(body):
+    for l, n in body.names.items():
+        if l > body.argc and lib_mux._SELF_FORMS.fullmatch(render(body.init_expr(l)) or ""):
+            return n
+    return "this"
+
+
 def _adapter(ctx):
     prog = ctx.prog
-    pr = ctx.body(MP, r"^libp2p_mplex::<Substream as futures::AsyncRead>::poll_read$")
-    LEN = "std::cmp::min(asynchronous_codec::Bytes::len(this.current_data), core::slice::len(buf))"
+    pr = lib_mux.canon_args(ctx.body(MP, r"^libp2p_mplex::<Substream as futures::AsyncRead>::poll_read$"), ["self", "cx", "buf"])
+    al = _self_alias(pr)
+    R = lambda e: lib_mux.norm_self(render(e), al)
+    CUR = "this.current_data"
     cp = pr.call_sites(r"copy_from_slice$")
     ctx.floor("adapter", "copy into the caller's buffer", cp, 1, exact=True)
+    LEN = None
     for s in cp:
         e = pr.site_expr(s)
-        dst, src = render(e[2][0]), render(e[2][1])
-        ctx.ob("adapter", "copied bytes are split off the current frame", src == "<asynchronous_codec::Bytes as std::ops::Deref>::deref(asynchronous_codec::Bytes::split_to(this.current_data, %s))" % LEN, s.loc(), src[-120:])
-        ctx.ob("adapter", "destination is buf[..len] with the same len", dst == "core::slice::index::index_mut(buf, std::ops::RangeTo::RangeTo{end: %s})" % LEN, s.loc(), dst[-120:])
-        ctx.guarded("adapter", "copy only when the current frame is non-empty", s, lambda c, r, l: l == "false" and r == "asynchronous_codec::Bytes::is_empty(this.current_data)", "!current_data.is_empty()")
-    z = lib_mux.zero_assigns(pr)
+        dst, src = R(e[2][0]), R(e[2][1])
+        m = re.match(r"^<asynchronous_codec::Bytes as std::ops::Deref>::deref\(asynchronous_codec::Bytes::split_to\(this\.current_data, (.+)\)\)$", src)
+        ctx.ob("adapter", "copied bytes are split off the current frame", m is not None, s.loc(), src[-120:])
+        if m:
+            LEN = m.group(1)
+            le = [x for x in mir.walk(e[2][1]) if R(x) == LEN]
+            ctx.ob("adapter", "copy length is min(current_data.len(), buf.len())", bool(le) and lib_mux.is_min_of(le[0], lambda x: R(x) == "asynchronous_codec::Bytes::len(this.current_data)", lambda x: R(x) == "core::slice::len(buf)"), s.loc(), LEN[-110:])
+        ctx.ob("adapter", "destination is buf[..len] with the same len", LEN is not None and dst in ("core::slice::index::index_mut(buf, std::ops::RangeTo::RangeTo{end: %s})" % LEN, "core::slice::index::index_mut(buf, std::ops::Range::Range{start: 0, end: %s})" % LEN), s.loc(), dst[-120:])
+        ne = pr.guard_edges(lambda c, r, l: (l == "false" and lib_mux.norm_self(r, al) == "asynchronous_codec::Bytes::is_empty(this.current_data)") or (l == "true" and lib_mux.norm_self(r, al) == "Not(asynchronous_codec::Bytes::is_empty(this.current_data))"))
+        ctx.ob("adapter", "copy only when the current frame is non-empty", bool(ne) and pr.must_pass_edges(s.bb, ne), s.loc(), "!current_data.is_empty()")
+    z = {b: lib_mux.norm_self(r, al) for b, r in lib_mux.zero_assigns(pr).items()}
     oks = sorted(r for r in z.values() if r.startswith("std::task::Poll::Ready{0: std::result::Result::Ok{"))
     ctx.ob("adapter", "poll_read returns the copied length, or 0 at end of stream", oks == sorted(["std::task::Poll::Ready{0: std::result::Result::Ok{0: %s}}" % LEN, "std::task::Poll::Ready{0: std::result::Result::Ok{0: 0}}"]), _w(pr), str([o[-60:] for o in oks]))
     rs = pr.call_sites(r"^libp2p_mplex::io::Multiplexed::poll_read_stream$")
     ctx.floor("adapter", "poll_read_stream call", rs, 1, exact=True)
     for s in rs:
-        ctx.guarded("adapter", "next frame fetched only when the current one is used up", s, lambda c, r, l: l == "true" and r == "asynchronous_codec::Bytes::is_empty(this.current_data)", "current_data.is_empty()")
-        ctx.ob("adapter", "reads use the substream's own id", render(pr.site_expr(s)[2][2]) == "this.id", s.loc(), render(pr.site_expr(s)[2][2]))
-        RES = "<std::result::Result as std::ops::Try>::branch(%s@Ready.0)@Continue.0" % render(pr.site_expr(s))
+        em = pr.guard_edges(lambda c, r, l: (l == "true" and lib_mux.norm_self(r, al) == "asynchronous_codec::Bytes::is_empty(this.current_data)") or (l == "false" and lib_mux.norm_self(r, al) == "Not(asynchronous_codec::Bytes::is_empty(this.current_data))"))
+        ctx.ob("adapter", "next frame fetched only when the current one is used up", bool(em) and pr.must_pass_edges(s.bb, em), s.loc(), "current_data.is_empty()")
+        ctx.ob("adapter", "reads use the substream's own id", R(pr.site_expr(s)[2][2]) == "this.id", s.loc(), R(pr.site_expr(s)[2][2]))
         fw = [x for x in pr.field_write_sites("current_data") if x.si is not None]
-        ctx.ob("adapter", "every fetched frame becomes the current frame", len(fw) == 1 and render(pr.site_expr(fw[0])) == RES + "@Some.0", fw[0].loc() if fw else _w(pr), render(pr.site_expr(fw[0]))[-40:] if fw else "no store")
+        fv = pr.site_expr(fw[0]) if len(fw) == 1 else ("unknown", "?")
+        core = lib_mux._core_call(fv)
+        ctx.ob("adapter", "every fetched frame becomes the current frame", core is not None and core[3] == s.bb and render(fv).endswith("@Some.0"), fw[0].loc() if fw else _w(pr), render(fv)[-40:])
+        eos = lib_mux.result_edges(pr, s, {"None"})
         for b, r in z.items():
             if r == "std::task::Poll::Ready{0: std::result::Result::Ok{0: 0}}":
-                ok = pr.must_pass_edges(b, pr.guard_edges(lambda c, rr, l: l == "None" and rr == "discr(%s)" % RES))
-                ctx.ob("adapter", "Ok(0) only when the muxer reported end of stream", ok, _w(pr), "dominated by poll_read_stream == Ready(Ok(None))")
+                ctx.ob("adapter", "Ok(0) only when the muxer reported end of stream", bool(eos) and pr.must_pass_edges(b, eos), _w(pr), "dominated by poll_read_stream == Ready(Ok(None))")
     for meth, callee, nargs in (("AsyncWrite>::poll_write", "poll_write_stream", 4), ("AsyncWrite>::poll_flush", "poll_flush_stream", 3), ("AsyncWrite>::poll_close", "poll_close_stream", 3)):
-        b = ctx.body(MP, r"^libp2p_mplex::<Substream as futures::%s$" % meth)
+        b = lib_mux.canon_args(ctx.body(MP, r"^libp2p_mplex::<Substream as futures::%s$" % meth), ["self", "cx", "buf"])
         cs = b.call_sites(r"^libp2p_mplex::io::Multiplexed::%s$" % callee)
         ctx.floor("adapter", "%s call" % callee, cs, 1, exact=True)
         for s in cs:
             e = b.site_expr(s)
-            ctx.ob("adapter", "%s uses the substream's own id" % callee, render(e[2][2]).endswith(".id") and ("get_mut(self)" in render(e[2][2]) or render(e[2][2]) == "this.id"), s.loc(), render(e[2][2]))
+            ctx.ob("adapter", "%s uses the substream's own id" % callee, lib_mux.norm_self(render(e[2][2]), _self_alias(b)) == "this.id", s.loc(), render(e[2][2]))
             if callee == "poll_write_stream":
                 ctx.ob("adapter", "poll_write forwards the caller's buffer and the muxer's result", render(e[2][3]) == "buf" and [d[0] for d in b.defs.get(0, [])] == ["call"] and b.defs[0][0][1] == s.bb, s.loc(), render(e[2][3]))
     pcl = ctx.body(MP, r"^libp2p_mplex::<Substream as futures::AsyncWrite>::poll_close$")
     c1, c2 = pcl.call_sites(r"::poll_close_stream$"), pcl.call_sites(r"::poll_flush_stream$")
     if c1 and c2:
-        ctx.ob("adapter", "close = send Close, then flush", pcl.dominates(c1[0].bb, c2[0].bb) and pcl.must_pass_edges(c2[0].bb, lib.switch_edges_on_site(pcl, c1[0], {"Continue"})), c2[0].loc(), "poll_flush_stream only after poll_close_stream returned Ready(Ok)")
+        ctx.ob("adapter", "close = send Close, then flush", pcl.dominates(c1[0].bb, c2[0].bb) and pcl.must_pass_edges(c2[0].bb, lib_mux.ok_edges(pcl, c1[0])), c2[0].loc(), "poll_flush_stream only after poll_close_stream returned Ready(Ok)")
         zc = lib_mux.zero_assigns(pcl)
         for b, r in zc.items():
             if r == "std::task::Poll::Ready{0: std::result::Result::Ok{0: tuple{}}}":
-                ctx.ob("adapter", "close reports success only after the flush completed", pcl.must_pass_edges(b, lib.switch_edges_on_site(pcl, c2[0], {"Continue"})), c2[0].loc(), "dominated by poll_flush_stream Ready(Ok)")
+                ctx.ob("adapter", "close reports success only after the flush completed", pcl.must_pass_edges(b, lib_mux.ok_edges(pcl, c2[0])), c2[0].loc(), "dominated by poll_flush_stream Ready(Ok)")
     dr = ctx.body(MP, r"^libp2p_mplex::<Substream as std::ops::Drop>::drop$")
     cs = dr.call_sites(r"::drop_stream$")
     ctx.ob("adapter", "dropping a Substream drops its own id in the muxer", len(cs) == 1 and render(dr.site_expr(cs[0])[2][1]) == "self.id", _w(dr), render(dr.site_expr(cs[0])[2][1]) if cs else "no drop_stream call")
-    nw = ctx.body(MP, r"^libp2p_mplex::Substream::new$")
+    nw = lib_mux.canon_args(ctx.body(MP, r"^libp2p_mplex::Substream::new$"), ["id", "io"])
     aggs = nw.agg_sites(r"^libp2p_mplex::Substream$")
     r = render(nw.site_expr(aggs[0])) if len(aggs) == 1 else ""
     ctx.ob("adapter", "a new Substream starts with its id and no pending bytes", r == "libp2p_mplex::Substream::Substream{id: id, current_data: asynchronous_codec::Bytes::new(), io: io}", _w(nw), r)
     for meth, src in (("poll_inbound", "poll_next_stream"), ("poll_outbound", "poll_open_stream")):
         b = ctx.body(MP, r"^libp2p_mplex::<Multiplex as libp2p_core::StreamMuxer>::%s$" % meth)
-        d0 = b.defs.get(0, [])
-        r = render(b.call_expr(d0[0][3], d0[0][1])) if len(d0) == 1 and d0[0][0] == "call" else ""
-        cl = [c for c in prog.children(b)]
-        inner = [render(c.site_expr(s)) for c in cl for s in c.call_sites(r"^libp2p_mplex::Substream::new$")]
-        ctx.ob("adapter", "%s wraps exactly the id returned by %s" % (meth, src), ("map_ok(libp2p_mplex::io::Multiplexed::%s(" % src) in r and len(inner) == 1 and inner[0].startswith("libp2p_mplex::Substream::new(stream_id, "), _w(b), (inner or [r])[0][:80])
+        srcs = b.call_sites(r"^libp2p_mplex::io::Multiplexed::%s$" % src)
+        ok, shown = False, ""
+        if len(srcs) == 1:
+            # (a) `poll_x(cx).map_ok(|id| Substream::new(id, ..))`: the closure wraps its own parameter and is applied to poll_x's result
+            for c in prog.children(b):
+                for s in c.call_sites(r"^libp2p_mplex::Substream::new$"):
+                    a0 = c.site_expr(s)[2][0]
+                    shown = render(c.site_expr(s))
+                    for m in b.call_sites(r"Poll::map_ok$|::map_ok$|Result::map$|Poll::map$"):
+                        e = b.site_expr(m)
+                        core = lib_mux._core_call(e[2][0]) if e[2] else None
+                        if a0[0] == "arg" and a0[1] >= 2 and core is not None and core[3] == srcs[0].bb and any(x[0] == "closure" and x[1] == c.path for x in mir.walk(e)):
+                            ok = True
+            # (b) explicit match: Substream::new(<payload of poll_x's result>, ..)
+            for s in b.call_sites(r"^libp2p_mplex::Substream::new$"):
+                a0 = b.site_expr(s)[2][0]
+                shown = render(b.site_expr(s))
+                core = lib_mux._core_call(a0)
+                if core is not None and core[3] == srcs[0].bb:
+                    ok = True
+        ctx.ob("adapter", "%s wraps exactly the id returned by %s" % (meth, src), ok, _w(b), shown[:80])
 
 
 # ====================================================================================================== yamux wrapper
 def _yamux(ctx):
     Y = "libp2p_yamux"
-    fw = [("AsyncRead>::poll_read", r"<yamux::Stream as futures::AsyncRead>::poll_read$", ["cx", "buf"]),
-          ("AsyncRead>::poll_read_vectored", r"AsyncRead::poll_read_vectored$|<yamux::Stream as futures::AsyncRead>::poll_read_vectored$", ["cx", "bufs"]),
-          ("AsyncWrite>::poll_write", r"<yamux::Stream as futures::AsyncWrite>::poll_write$", ["cx", "buf"]),
-          ("AsyncWrite>::poll_write_vectored", r"AsyncWrite::poll_write_vectored$|<yamux::Stream as futures::AsyncWrite>::poll_write_vectored$", ["cx", "bufs"]),
-          ("AsyncWrite>::poll_flush", r"<yamux::Stream as futures::AsyncWrite>::poll_flush$", ["cx"]),
-          ("AsyncWrite>::poll_close", r"<yamux::Stream as futures::AsyncWrite>::poll_close$", ["cx"])]
+    fw = [("AsyncRead>::poll_read", r"AsyncRead>?::poll_read$", ["cx", "buf"]),
+          ("AsyncRead>::poll_read_vectored", r"AsyncRead>?::poll_read_vectored$", ["cx", "bufs"]),
+          ("AsyncWrite>::poll_write", r"AsyncWrite>?::poll_write$", ["cx", "buf"]),
+          ("AsyncWrite>::poll_write_vectored", r"AsyncWrite>?::poll_write_vectored$", ["cx", "bufs"]),
+          ("AsyncWrite>::poll_flush", r"AsyncWrite>?::poll_flush$", ["cx"]),
+          ("AsyncWrite>::poll_close", r"AsyncWrite>?::poll_close$", ["cx"])]
     for meth, callee, args in fw:
-        b = ctx.body(Y, r"^libp2p_yamux::<Stream as futures::%s$" % meth)
-        cs = b.call_sites(callee)
+        b = lib_mux.canon_args(ctx.body(Y, r"^libp2p_yamux::<Stream as futures::%s$" % meth), ["self"] + args)
+        al = _self_alias(b)
+        cs = [s for s in b.call_sites(callee) if "libp2p_yamux" not in mir.strip_generics(b.call_name(s.term))]
         d0 = b.defs.get(0, [])
         ok = len(cs) == 1 and len(d0) == 1 and d0[0][0] == "call" and d0[0][1] == cs[0].bb
         if ok:
             e = b.site_expr(cs[0])
-            ok = render(e[2][0]) == "std::pin::Pin::new(<std::pin::Pin as std::ops::DerefMut>::deref_mut(self).0)" and [render(a) for a in e[2][1:]] == args
+            ok = lib_mux.norm_self(render(e[2][0]), al) in ("std::pin::Pin::new(this.0)", "std::pin::Pin::new_unchecked(this.0)") and [render(a) for a in e[2][1:]] == args
         ctx.ob("yamux", "Stream::%s forwards to the inner stream's same method with the same arguments" % meth.split("::")[-1], ok, _w(b), render(b.site_expr(cs[0]))[-110:] if cs else "no forwarding call")
     for meth, mode in (("InboundConnectionUpgrade>::upgrade_inbound", "Server"), ("OutboundConnectionUpgrade>::upgrade_outbound", "Client")):
-        b = ctx.body(Y, r"^libp2p_yamux::<Config as libp2p_core::upgrade::%s$" % meth)
+        b = lib_mux.canon_args(ctx.body(Y, r"^libp2p_yamux::<Config as libp2p_core::upgrade::%s$" % meth), ["self", "io", "info"])
         cs = b.call_sites(r"yamux::Connection::new$")
         r = render(b.site_expr(cs[0])) if len(cs) == 1 else ""
         ctx.ob("yamux", "%s upgrade runs the connection in %s mode" % ("inbound" if mode == "Server" else "outbound", mode), r == "yamux::Connection::new(io, self.0, yamux::Mode::%s{})" % mode, _w(b), r)
-    pi = ctx.body(Y, r"^libp2p_yamux::Muxer::poll_inner$")
-    z = lib_mux.zero_assigns(pi)
-    oks = [r for r in z.values() if r.startswith("std::task::Poll::Ready{0: std::result::Result::Ok{")]
-    ctx.ob("yamux", "inbound substreams are the connection's inbound streams, wrapped", len(oks) == 1 and "fn:libp2p_yamux::Stream)" in oks[0] and "yamux::Connection::poll_next_inbound(self.connection, cx)@Ready.0" in oks[0], _w(pi), (oks or ["?"])[0][-100:])
-    po = ctx.body(Y, r"^libp2p_yamux::<Muxer as libp2p_core::StreamMuxer>::poll_outbound$")
-    zo = lib_mux.zero_assigns(po)
-    oks = [r for r in zo.values() if r.startswith("std::task::Poll::Ready{0: std::result::Result::Ok{")]
-    ctx.ob("yamux", "outbound substreams are the connection's new outbound streams, wrapped", len(oks) == 1 and "yamux::Connection::poll_new_outbound(" in oks[0] and "fn:libp2p_yamux::Stream" in oks[0], _w(po), (oks or ["?"])[0][-120:])
+    for name, pat, source, what in (("Muxer::poll_inner", r"^libp2p_yamux::Muxer::poll_inner$", r"yamux::Connection::poll_next_inbound$", "inbound substreams are the connection's inbound streams, wrapped"),
+                                    ("poll_outbound", r"^libp2p_yamux::<Muxer as libp2p_core::StreamMuxer>::poll_outbound$", r"yamux::Connection::poll_new_outbound$", "outbound substreams are the connection's new outbound streams, wrapped")):
+        b = ctx.body(Y, pat)
+        srcs = b.call_sites(source)
+        z = lib_mux.zero_assigns(b)
+        oks = [r for r in z.values() if r.startswith("std::task::Poll::Ready{0: std::result::Result::Ok{")]
+        ok = False
+        if len(srcs) == 1 and len(oks) == 1:
+            SRC = render(b.site_expr(srcs[0]))
+            v = oks[0]
+            # value flow: the returned stream is the payload of the source's Ready(..) result, passed through the Stream wrapper only
+            ok = (SRC + "@Ready.0") in v and ("fn:libp2p_yamux::Stream" in v or "libp2p_yamux::Stream::Stream{0: " in v) and v.count("yamux::Connection::poll_") == v.count(SRC)
+        ctx.ob("yamux", what, ok, _w(b), (oks or ["?"])[0][-120:])
